@@ -21,6 +21,12 @@
                                      workerRunEnd   runnable->run() returned
                                      workerDelete   delete runnable; loop
 
+  `start()` writes `m_isRunning = true` before its queue critical section and without the mutex, but only when the flag is
+  false, i.e. after a `stop()` returned, when every worker has been joined (invariant `StopInv.stopped_ok` /
+  `Live.idle_stopped`: flag false and owner idle ⇒ the pool is empty): nobody can observe where that write happens, so the
+  model folds it into the `start` step.  The spawn test `getActiveThreadCount() == getThreadCount()` is invariantly true for
+  non-expiring workers (`Live.alive`: while the flag is true no pool thread has exited) and is not modelled.
+
   Core Lean only (the driver `tulzdrv` links this file).  The namespace is `TPool` (not `Pool`) because
   `Main.lean` opens `Tulz.Drv` and refers to `Pool.State` of the driver.
 -/
